@@ -1,5 +1,5 @@
 (* C09 — postponed resolution reaches the right fixpoint and terminates. *)
-From TxV Require Import Core.Base Gen.SrcResolve Model.Resolve Proofs.ResolveOrderProofs Proofs.ResolveRetryProofs Proofs.ResolveProofs.
+From TxV Require Import Core.Base Gen.SrcResolve Model.Resolve Proofs.ResolveOrderProofs Proofs.ResolveRetryProofs Proofs.ResolveProofs Proofs.ResolveTermProofs Proofs.ResolveCountProofs.
 
 (* [load] is the resolver model instantiated with the facts read from textx/model.py on every
    run (Gen/SrcResolve.v, tools/translate/resolve_tr.py): re-queueing of Postponed references,
@@ -9,7 +9,7 @@ From TxV Require Import Core.Base Gen.SrcResolve Model.Resolve Proofs.ResolveOrd
 (* Termination for every provider: the round loop, started with fuel = number of
    references + 1, never runs out of fuel (each continuing round resolves at least one). *)
 Theorem C09_terminates : forall (ans : provider) models, load ans models <> OutOfFuel.
-Proof. exact load_terminates. Qed.
+Proof. exact load_terminates_direct. Qed.   (* Proofs/ResolveTermProofs.v: needs only the loop-condition fact *)
 Print Assumptions C09_terminates.
 
 (* every resolution - of a list element or of a scalar - is counted as progress, and the pending
@@ -18,6 +18,13 @@ Theorem C09_progress_counted : forall (ans : provider) pend st st' np d c,
   step ans pend st = Some (st', np, d, c) -> np = d /\ sub np pend /\ length np + c = length pend.
 Proof. exact retry_in_order. Qed.
 Print Assumptions C09_progress_counted.
+
+(* the counting part alone, proved directly on the model with exactly the two counting facts
+   (Proofs/ResolveCountProofs.v): it holds wherever Postponed references are re-queued or reported *)
+Theorem C09_progress_counted_exact : forall (ans : provider) pend st st' np d c,
+  step ans pend st = Some (st', np, d, c) -> length np + c = length pend /\ length d = length np.
+Proof. exact progress_counted_exact. Qed.
+Print Assumptions C09_progress_counted_exact.
 
 (* With a provider given by a dependency table (a reference resolves once everything it
    waits for has resolved; "never" references are always postponed):
@@ -110,7 +117,7 @@ Print Assumptions C09_any_ready_monotone.
    every monotone [ready] the verdict, the targets and the reported names are those of the least
    fixpoint, exactly as for providers that see the resolved set directly. *)
 Theorem C09_terminates_snapshot : forall (ans : sprovider) models, qload ans models <> OutOfFuel.
-Proof. exact qload_terminates. Qed.
+Proof. exact qload_terminates_direct. Qed.   (* Proofs/ResolveTermProofs.v: needs only the loop-condition fact *)
 Print Assumptions C09_terminates_snapshot.
 
 Theorem C09_snapshot_success_iff : forall ready, monotone ready -> forall models, NoDup (map xid (concat models)) ->
